@@ -13,7 +13,7 @@ for d in sorted(glob.glob(f"{root}/C*/seed/[abc]")):
     res = f"{resdir}/{pfx}{prop}_{k}.txt"
     if not os.path.exists(res):
         continue
-    txt = open(res).read()
+    txt = open(res, errors="replace").read()
     r = re.search(r"RESULT \S+ applies=(\w+)(?: suite=\[(.*?)\] with_change=\[(.*?)\] clean=\[(.*?)\])?", txt)
     if not r or r.group(1) != "yes":
         print("skip (not applied)", d); continue
